@@ -1,6 +1,1133 @@
 package main
 
-import "verif/ev"
+// Part B: end to end on a node. Accounts are created with $acl.NewAccount and confirmed;
+// then every guarded operation is attempted with every subset of a menu of signer entries
+// and State.VerifyTx is compared with the model evaluated on the rules CONFIRMED at the tip.
 
-func partB(r *ev.Run)       {}
-func partBFloors(r *ev.Run) {}
+import (
+	"fmt"
+	"math/big"
+	"os"
+	"runtime"
+	"sort"
+	"strings"
+	"sync"
+	"sync/atomic"
+
+	"github.com/xuperchain/xupercore/bcs/ledger/xledger/state/utxo/txhash"
+	pb "github.com/xuperchain/xupercore/bcs/ledger/xledger/xldgpb"
+	aclu "github.com/xuperchain/xupercore/kernel/permission/acl/utils"
+	"github.com/xuperchain/xupercore/protos"
+
+	"verif/ev"
+	sn "verif/simnode"
+)
+
+func acctName(digits string) string { return "XC" + digits + "@" + sn.BCName }
+
+const (
+	digitsA = "1111111111111111"
+	digitsB = "2222222222222222"
+	digitsC = "3333333333333333" // the "other" account
+	contOwn = "cont.own"         // contract owned by A (mapping confirmed in set-up)
+	contNew = "cont.new"         // contract name without a mapping
+	guarded = sn.VerifContract2  // contract whose method `run` gets a method rule
+)
+
+// ---- operations ----
+const (
+	opSetAccountAcl = "SetAccountAcl"
+	opSetMethodAcl  = "SetMethodAcl"
+	opRawPutAccount = "raw-put-XCAccount"
+	opRawDelAccount = "raw-del-XCAccount"
+	opRawPutMethod  = "raw-put-XCContract"
+	opRawPutMapping = "raw-put-XCContract2Account(new contract -> account)"
+	opSpend         = "spend-account-output"
+	opCallGuarded   = "call-method-with-rule"
+	opTakeover      = "raw-put-XCContract2Account(existing contract -> other account)"
+)
+
+var acctOps = []string{opSetAccountAcl, opSetMethodAcl, opRawPutAccount, opRawDelAccount, opRawPutMethod, opRawPutMapping, opSpend}
+
+type entry struct {
+	URI  string
+	Key  *sn.Key // key that really signs
+	Cat  string
+	Path []int8
+	Bad  bool // signature made by another key than the URI names
+}
+
+type bworld struct {
+	n       *sn.Node
+	u       *Names
+	w       *World // model: rules CONFIRMED at the tip
+	nonce   int
+	height  int64
+	ts      int64
+	A, B, C int
+	k       [8]int
+	sym     map[int]string
+}
+
+func (b *bworld) symPath(p []int8) string {
+	parts := make([]string, len(p))
+	for i, id := range p {
+		parts[i] = b.sym[int(id)]
+	}
+	return strings.Join(parts, "/")
+}
+
+func (b *bworld) nn() string { b.nonce++; return fmt.Sprintf("c11-%d", b.nonce) }
+
+// sign assembles the transaction: the initiator signs as initiator, every auth entry is signed by its key.
+func (b *bworld) sign(tx *pb.Transaction, init *sn.Key, initAcct string, auth []entry) (*pb.Transaction, error) {
+	tx.Version = 3
+	tx.Initiator = init.Address
+	if initAcct != "" {
+		tx.Initiator = initAcct
+	}
+	tx.Nonce = b.nn()
+	b.ts++
+	tx.Timestamp = b.ts
+	tx.AuthRequire = nil
+	for _, e := range auth {
+		tx.AuthRequire = append(tx.AuthRequire, e.URI)
+	}
+	digest, err := txhash.MakeTxDigestHash(tx)
+	if err != nil {
+		return nil, err
+	}
+	c := sn.Crypto()
+	mk := func(k *sn.Key) (*protos.SignatureInfo, error) {
+		sig, err := c.SignECDSA(k.Priv, digest)
+		if err != nil {
+			return nil, err
+		}
+		return &protos.SignatureInfo{PublicKey: k.PubJSON, Sign: sig}, nil
+	}
+	si, err := mk(init)
+	if err != nil {
+		return nil, err
+	}
+	tx.InitiatorSigns = []*protos.SignatureInfo{si}
+	tx.AuthRequireSigns = nil
+	for _, e := range auth {
+		si, err := mk(e.Key)
+		if err != nil {
+			return nil, err
+		}
+		tx.AuthRequireSigns = append(tx.AuthRequireSigns, si)
+	}
+	tx.Txid, err = txhash.MakeTransactionID(tx)
+	if err != nil {
+		return nil, err
+	}
+	return sn.Wire(tx)
+}
+
+func (b *bworld) verify(tx *pb.Transaction) (ok bool, err error, panicked string) {
+	defer func() {
+		if p := recover(); p != nil {
+			panicked = fmt.Sprint(p)
+		}
+	}()
+	ok, err = b.n.State.VerifyTx(tx)
+	return
+}
+
+func (b *bworld) admit(tx *pb.Transaction, what string) error {
+	ok, err, pn := b.verify(tx)
+	if pn != "" {
+		return fmt.Errorf("%s: VerifyTx panicked: %s", what, pn)
+	}
+	if !ok || err != nil {
+		return fmt.Errorf("%s: VerifyTx refused a set-up transaction: %v %v", what, err, b.n.Log.Tail(3))
+	}
+	if err := b.n.State.DoTx(sn.CloneTx(tx)); err != nil {
+		return fmt.Errorf("%s: DoTx: %v", what, err)
+	}
+	return nil
+}
+
+func (b *bworld) mine() error {
+	pool, err := b.n.State.GetUnconfirmedTx(false)
+	if err != nil {
+		return err
+	}
+	b.height++
+	b.ts += 10
+	blk, err := b.n.FormatBlock(b.n.StateTip(), b.height, sn.K(0), b.ts, pool, true)
+	if err != nil {
+		return err
+	}
+	if st := b.n.Confirm(blk); !st.Succ {
+		return fmt.Errorf("confirm: %v", st.Error)
+	}
+	if err := b.n.Walk(blk.Blockid, false); err != nil {
+		return fmt.Errorf("walk: %v %v", err, b.n.Log.Tail(3))
+	}
+	if p, _ := b.n.State.GetUnconfirmedTx(false); len(p) != 0 {
+		return fmt.Errorf("%d transactions left in the pool after mining", len(p))
+	}
+	return nil
+}
+
+func aclReq(method string, args map[string][]byte) *protos.InvokeRequest {
+	return &protos.InvokeRequest{ModuleName: "xkernel", ContractName: "$acl", MethodName: method, Args: args}
+}
+
+// contractTx pre-executes the requests and returns the unsigned transaction body.
+func (b *bworld) contractTx(reqs []*protos.InvokeRequest, initiator string, auth []string) (*pb.Transaction, error) {
+	res, err := b.n.PreExec(reqs, initiator, auth)
+	if err != nil {
+		return nil, err
+	}
+	return &pb.Transaction{TxInputsExt: res.Inputs, TxOutputsExt: res.Outputs, ContractRequests: res.Requests}, nil
+}
+
+func (b *bworld) transferTx(from string, to string, amt int64) (*pb.Transaction, error) {
+	ins, _, total, err := b.n.State.SelectUtxos(from, big.NewInt(amt), false, false)
+	if err != nil {
+		return nil, err
+	}
+	tx := &pb.Transaction{TxInputs: ins}
+	tx.TxOutputs = append(tx.TxOutputs, &protos.TxOutput{ToAddr: []byte(to), Amount: big.NewInt(amt).Bytes()})
+	if rest := new(big.Int).Sub(total, big.NewInt(amt)); rest.Sign() > 0 {
+		tx.TxOutputs = append(tx.TxOutputs, &protos.TxOutput{ToAddr: []byte(from), Amount: rest.Bytes()})
+	}
+	return tx, nil
+}
+
+// the rules of part B (k1..k4 = keys 0..3, B = nested account)
+func bAcctRules(k [8]int, B int) []*MRule {
+	return []*MRule{
+		thr(1000, int64(k[0]), 1000),
+		thr(1000, int64(k[0]), 500, int64(k[1]), 500),
+		thr(1000, int64(k[0]), 300, int64(k[1]), 300, int64(k[2]), 500),
+		thr(1000, int64(k[0]), 500, int64(B), 500),
+		ksets([]int{k[0], k[1]}, []int{k[2]}),
+		ksets([]int{k[0], B}),
+		thr(1500, int64(k[0]), 1000, int64(k[1]), 500, int64(k[2]), 500),
+		thr(1000, int64(k[0]), 500, int64(k[1]), 500, int64(k[2]), 500),
+		ksets([]int{k[1]}, []int{k[0], k[2]}),
+		thr(1000, int64(B), 1000),
+		thr(800, int64(k[0]), 100, int64(k[1]), 700, int64(k[2]), 300, int64(k[3]), 400), // #10: decimal boundary probe only
+	}
+}
+
+func usesNested(r *MRule, B int) bool {
+	if r.Kind == 1 {
+		return r.W[B] != 0
+	}
+	for _, m := range r.Sets {
+		if m&(1<<uint(B)) != 0 {
+			return true
+		}
+	}
+	return false
+}
+
+// newWorld: node + accounts A (rule ri), B, C confirmed; A funded; contOwn -> A confirmed.
+func newWorld(ri int) (*bworld, error) {
+	n, err := sn.NewNode(sn.DefaultConfig())
+	if err != nil {
+		return nil, err
+	}
+	b := &bworld{n: n, u: NewNames(), ts: 1000, sym: map[int]string{}}
+	for i := 0; i < 8; i++ {
+		b.k[i] = b.u.ID(sn.K(i).Address)
+		b.sym[b.k[i]] = fmt.Sprintf("k%d", i+1)
+	}
+	b.A = b.u.ID(acctName(digitsA))
+	b.B = b.u.ID(acctName(digitsB))
+	b.C = b.u.ID(acctName(digitsC))
+	b.sym[b.A], b.sym[b.B], b.sym[b.C] = "A", "B", "C"
+	rules := bAcctRules(b.k, b.B)
+	b.w = &World{N: b.u}
+	b.w.Rules[b.A] = rules[ri]
+	b.w.Rules[b.B] = thr(1000, int64(b.k[2]), 500, int64(b.k[3]), 500)
+	b.w.Rules[b.C] = thr(1000, int64(b.k[0]), 1000)
+	ini := sn.K(6)
+	for _, a := range []struct {
+		digits string
+		id     int
+	}{{digitsB, b.B}, {digitsA, b.A}, {digitsC, b.C}} {
+		tx, err := b.contractTx([]*protos.InvokeRequest{aclReq("NewAccount", map[string][]byte{"account_name": []byte(a.digits),
+			"acl": []byte(b.w.Rules[a.id].JSON(b.u))})}, ini.Address, nil)
+		if err != nil {
+			return nil, fmt.Errorf("preexec NewAccount: %v", err)
+		}
+		x, err := b.sign(tx, ini, "", nil)
+		if err != nil {
+			return nil, err
+		}
+		if err := b.admit(x, "NewAccount"); err != nil {
+			return nil, err
+		}
+	}
+	// funding: three outputs for A
+	tx, err := b.transferTx(sn.K(0).Address, sn.K(0).Address, 1)
+	if err != nil {
+		return nil, err
+	}
+	tx.TxOutputs = append([]*protos.TxOutput{
+		{ToAddr: []byte(acctName(digitsA)), Amount: big.NewInt(100).Bytes()},
+		{ToAddr: []byte(acctName(digitsA)), Amount: big.NewInt(200).Bytes()},
+	}, tx.TxOutputs...)
+	// fix the change
+	var inSum big.Int
+	for _, in := range tx.TxInputs {
+		inSum.Add(&inSum, new(big.Int).SetBytes(in.Amount))
+	}
+	tx.TxOutputs = tx.TxOutputs[:2]
+	tx.TxOutputs = append(tx.TxOutputs, &protos.TxOutput{ToAddr: []byte(sn.K(0).Address), Amount: new(big.Int).Sub(&inSum, big.NewInt(300)).Bytes()})
+	x, err := b.sign(tx, sn.K(0), "", nil)
+	if err != nil {
+		return nil, err
+	}
+	if err := b.admit(x, "fund account"); err != nil {
+		return nil, err
+	}
+	if err := b.mine(); err != nil {
+		return nil, err
+	}
+	// contract -> account mapping, signed by everybody who could matter
+	all := b.fullAuth()
+	p := (&sn.ProgBuilder{}).Put(aclu.GetContract2AccountBucket(), []byte(contOwn), []byte(acctName(digitsA)))
+	tx, err = b.contractTx([]*protos.InvokeRequest{sn.VerifReq(sn.VerifContract, p.String())}, ini.Address, uris(all))
+	if err != nil {
+		return nil, err
+	}
+	x, err = b.sign(tx, ini, "", all)
+	if err != nil {
+		return nil, err
+	}
+	if err := b.admit(x, "map contract to account"); err != nil {
+		return nil, err
+	}
+	if err := b.mine(); err != nil {
+		return nil, err
+	}
+	return b, nil
+}
+
+func uris(es []entry) []string {
+	var o []string
+	for _, e := range es {
+		o = append(o, e.URI)
+	}
+	return o
+}
+
+func (b *bworld) ent(cat string, signer int, bad bool, ids ...int) entry {
+	parts := make([]string, len(ids))
+	p := make([]int8, len(ids))
+	for i, id := range ids {
+		parts[i] = b.u.list[id]
+		p[i] = int8(id)
+	}
+	return entry{URI: strings.Join(parts, "/"), Key: sn.K(signer), Cat: cat, Path: p, Bad: bad}
+}
+
+// fullAuth satisfies every rule of part B for account A.
+func (b *bworld) fullAuth() []entry {
+	return []entry{b.ent(cDirect, 0, false, b.A, b.k[0]), b.ent(cDirect, 1, false, b.A, b.k[1]), b.ent(cDirect, 2, false, b.A, b.k[2]), b.ent(cDirect, 3, false, b.A, b.k[3]),
+		b.ent(cNested, 2, false, b.A, b.B, b.k[2]), b.ent(cNested, 3, false, b.A, b.B, b.k[3])}
+}
+
+const cBadSig = "entry-signed-by-another-key"
+const cRepeat = "repeated-entry"
+
+// menu: the signer entries whose subsets are enumerated for account operations.
+func (b *bworld) menu() []entry {
+	la := b.u.ID("XC" + digitsA + "@" + sn.BCName + "2")
+	b.sym[la] = "A+chainsuffix"
+	return []entry{
+		b.ent(cDirect, 0, false, b.A, b.k[0]),
+		b.ent(cDirect, 1, false, b.A, b.k[1]),
+		b.ent(cDirect, 2, false, b.A, b.k[2]),
+		b.ent(cNested, 2, false, b.A, b.B, b.k[2]),
+		b.ent(cNested, 3, false, b.A, b.B, b.k[3]),
+		b.ent(cOther, 0, false, b.C, b.k[0]),
+		b.ent(cBare, 1, false, b.k[1]),
+		b.ent(cNameBefore, 5, false, b.A, b.k[0], b.k[5]),
+		b.ent(cLookalike, 0, false, la, b.k[0]),
+		b.ent(cDirect, 3, false, b.A, b.k[3]),
+		b.ent(cBadSig, 1, true, b.A, b.k[0]), // URI names k1, signature and public key are k2's
+		b.ent(cNameBefore, 5, false, b.A, b.B, b.k[2], b.k[5]),
+		b.ent(cRepeat, 0, false, b.A, b.k[0]), // the first entry once more
+	}
+}
+
+// methodMenu: entries for the method-rule protected call.
+func (b *bworld) methodMenu() []entry {
+	return []entry{
+		b.ent(cDirect, 0, false, b.k[0]),
+		b.ent(cDirect, 1, false, b.k[1]),
+		b.ent(cNested, 0, false, b.A, b.k[0]),
+		b.ent(cNested, 1, false, b.A, b.k[1]),
+		b.ent(cNested, 2, false, b.A, b.B, b.k[2]),
+		b.ent(cNested, 3, false, b.A, b.B, b.k[3]),
+		b.ent(cNameBefore, 5, false, b.k[0], b.k[5]),
+		b.ent(cNameBefore, 5, false, b.A, b.k[0], b.k[5]),
+		b.ent(cOther, 0, false, b.C, b.k[0]),
+		b.ent(cOutsider, 4, false, b.k[4]),
+	}
+}
+
+// subsets of {0..n-1} of size <= max, as index lists
+func subsets(n, max int) [][]int {
+	var out [][]int
+	for m := 0; m < 1<<uint(n); m++ {
+		var s []int
+		for i := 0; i < n; i++ {
+			if m&(1<<uint(i)) != 0 {
+				s = append(s, i)
+			}
+		}
+		if len(s) <= max {
+			out = append(out, s)
+		}
+	}
+	return out
+}
+
+type bFinding struct {
+	sig, detail string
+	witness     map[string]interface{}
+	ord         int64
+}
+
+type bAgg struct {
+	mu       sync.Mutex
+	findings map[string]bFinding
+	incon    []string
+}
+
+func (a *bAgg) add(f bFinding) {
+	a.mu.Lock()
+	if o, ok := a.findings[f.sig]; !ok || f.ord < o.ord {
+		a.findings[f.sig] = f
+	}
+	a.mu.Unlock()
+}
+
+// body builds the unsigned transaction of an operation (fresh for every case: cheap and
+// keeps cases independent).
+func (b *bworld) body(op string, auth []string) (*pb.Transaction, error) {
+	ini := sn.K(6).Address
+	A := acctName(digitsA)
+	newRule := []byte(fmt.Sprintf(`{"pm":{"rule":1,"acceptValue":1.0},"aksWeight":{%q:1.0}}`, sn.K(7).Address))
+	switch op {
+	case opSetAccountAcl:
+		return b.contractTx([]*protos.InvokeRequest{aclReq("SetAccountAcl", map[string][]byte{"account_name": []byte(A), "acl": newRule})}, ini, auth)
+	case opSetMethodAcl:
+		return b.contractTx([]*protos.InvokeRequest{aclReq("SetMethodAcl", map[string][]byte{"contract_name": []byte(contOwn), "method_name": []byte("m"), "acl": newRule})}, ini, auth)
+	case opRawPutAccount:
+		p := (&sn.ProgBuilder{}).Put(aclu.GetAccountBucket(), []byte(A), newRule)
+		return b.contractTx([]*protos.InvokeRequest{sn.VerifReq(sn.VerifContract, p.String())}, ini, auth)
+	case opRawDelAccount:
+		p := (&sn.ProgBuilder{}).Del(aclu.GetAccountBucket(), []byte(A))
+		return b.contractTx([]*protos.InvokeRequest{sn.VerifReq(sn.VerifContract, p.String())}, ini, auth)
+	case opRawPutMethod:
+		p := (&sn.ProgBuilder{}).Put(aclu.GetContractBucket(), []byte(aclu.MakeContractMethodKey(contOwn, "m")), newRule)
+		return b.contractTx([]*protos.InvokeRequest{sn.VerifReq(sn.VerifContract, p.String())}, ini, auth)
+	case opRawPutMapping:
+		p := (&sn.ProgBuilder{}).Put(aclu.GetContract2AccountBucket(), []byte(contNew), []byte(A))
+		return b.contractTx([]*protos.InvokeRequest{sn.VerifReq(sn.VerifContract, p.String())}, ini, auth)
+	case opTakeover:
+		p := (&sn.ProgBuilder{}).Put(aclu.GetContract2AccountBucket(), []byte(contOwn), []byte(acctName(digitsC)))
+		return b.contractTx([]*protos.InvokeRequest{sn.VerifReq(sn.VerifContract, p.String())}, ini, auth)
+	case opSpend:
+		return b.transferTx(A, sn.K(1).Address, 50)
+	case opCallGuarded:
+		p := (&sn.ProgBuilder{}).Put("vb0", []byte("x"), []byte("1"))
+		return b.contractTx([]*protos.InvokeRequest{sn.VerifReq(guarded, p.String())}, ini, auth)
+	}
+	return nil, fmt.Errorf("unknown op %s", op)
+}
+
+// oraclePaths: the signer URIs the model is given. An entry whose own signature is by another
+// key still names a verified signer when that key has a valid signature elsewhere in the
+// transaction (every signature covers the whole auth_require list).
+func (b *bworld) oraclePaths(auth []entry) (paths [][]int8, hasBad bool) {
+	verified := map[int8]bool{}
+	for _, e := range auth {
+		if !e.Bad {
+			verified[e.Path[len(e.Path)-1]] = true
+		}
+	}
+	for _, e := range auth {
+		if e.Bad {
+			hasBad = true
+			if !verified[e.Path[len(e.Path)-1]] {
+				continue
+			}
+		}
+		paths = append(paths, e.Path)
+	}
+	return
+}
+
+func (b *bworld) want(auth []entry, method *MRule) int {
+	paths, hasBad := b.oraclePaths(auth)
+	var want int
+	if method != nil {
+		// the initiator is a verified signer of the call
+		want = b.w.OracleMethod(method, append([][]int8{{int8(b.k[6])}}, paths...))
+	} else {
+		want = b.w.OracleAccount(b.A, paths)
+	}
+	if hasBad && want == MustAccept {
+		want = Unspec // refusing a transaction that carries an invalid signature is always right
+	}
+	return want
+}
+
+// attempt builds, signs and verifies one variant.
+func (b *bworld) attempt(op string, auth []entry) (ok bool, verr error, pn string, err error) {
+	tx, err := b.body(op, uris(auth))
+	if err != nil {
+		return false, nil, "", fmt.Errorf("%s: building the transaction failed: %v %v", op, err, b.n.Log.Tail(2))
+	}
+	x, err := b.sign(tx, sn.K(6), "", auth)
+	if err != nil {
+		return false, nil, "", err
+	}
+	ok, verr, pn = b.verify(x)
+	return ok, verr, pn, nil
+}
+
+func (b *bworld) traceOf(auth []entry, method *MRule) string {
+	paths, _ := b.oraclePaths(auth)
+	if method != nil {
+		return traceString(b.w, paths, 0)
+	}
+	var ps [][]int8
+	var bare uint32
+	for _, p := range paths {
+		if len(p) == 1 {
+			bare |= 1 << uint(p[0])
+			continue
+		}
+		if int(p[0]) != b.A {
+			continue
+		}
+		ps = append(ps, p[1:])
+	}
+	return traceString(b.w, ps, bare)
+}
+
+// expl: a minimal disagreeing signer subset that has been diagnosed already
+type expl struct {
+	s    []int
+	want int
+}
+
+func subsetOf(a, b []int) bool { // a ⊆ b, both sorted
+	j := 0
+	for _, x := range a {
+		for j < len(b) && b[j] < x {
+			j++
+		}
+		if j >= len(b) || b[j] != x {
+			return false
+		}
+	}
+	return true
+}
+
+// sweep runs one operation with every given subset of the menu and compares with the oracle.
+func (b *bworld) sweep(r *ev.Run, agg *bAgg, ri int, op, phase string, menu []entry, subs [][]int, ordBase int64, method *MRule, live *World, inherited []expl) ([]expl, error) {
+	pick := func(s []int) []entry {
+		var auth []entry
+		for _, i := range s {
+			auth = append(auth, menu[i])
+		}
+		return auth
+	}
+	type badCase struct {
+		s    []int
+		want int
+		ok   bool
+		verr error
+		pn   string
+	}
+	var bads []badCase
+	symr := func(i int) string { return b.sym[i] }
+	for si, s := range subs {
+		auth := pick(s)
+		ok, verr, pn, err := b.attempt(op, auth)
+		if err != nil {
+			return nil, fmt.Errorf("phase %s: %v", phase, err)
+		}
+		want := b.want(auth, method)
+		cats := map[string]bool{}
+		for _, e := range auth {
+			cats[e.Cat] = true
+		}
+		var cl []string
+		for c := range cats {
+			cl = append(cl, c)
+		}
+		sort.Strings(cl)
+		shape := fmt.Sprintf("B|%s|rule#%d|%s|%s|%s", op, ri, phase, strings.Join(cl, "+"), verdictName(want))
+		nontrivial := len(auth) > 0 && (len(cl) > 1 || cl[0] != cDirect)
+		r.Case(shape, nontrivial)
+		r.Count("B.transactions-verified", 1)
+		r.Count("B.op."+op, 1)
+		r.Count("B.phase."+phase, 1)
+		r.Count("B.oracle."+verdictName(want), 1)
+		if ok {
+			r.Count("B.node.accepted", 1)
+		} else {
+			r.Count("B.node.refused", 1)
+		}
+		for c := range cats {
+			r.Count("B.cases-with."+c, 1)
+		}
+		if phase != "base" {
+			r.Count("B.phase."+phase+"."+verdictName(want), 1)
+		}
+		if pn != "" || (want == MustReject && ok) || (want == MustAccept && !ok) {
+			bads = append(bads, badCase{s, want, ok, verr, pn})
+			continue
+		}
+		if si%97 == 0 && len(auth) >= 2 {
+			r.Sample(map[string]interface{}{"part": "B", "op": op, "phase": phase, "rule(A)": b.w.Rules[b.A].Describe(symr),
+				"auth_require": b.symAuth(auth), "node": map[bool]string{true: "accept", false: "refuse"}[ok], "oracle": verdictName(want)})
+		}
+	}
+	if len(bads) == 0 {
+		return inherited, nil
+	}
+	r.Count("B.disagreements", len(bads))
+	// smallest first; a case containing an already explained minimal witness of the same direction is attributed to it
+	sort.SliceStable(bads, func(i, j int) bool { return len(bads[i].s) < len(bads[j].s) })
+	// in a pending phase the confirmed rules are those of the previous phase: what was explained there is not reported again
+	explained := append([]expl(nil), inherited...)
+next:
+	for bi, bc := range bads {
+		for _, e := range explained {
+			if e.want == bc.want && subsetOf(e.s, bc.s) {
+				continue next
+			}
+		}
+		min := append([]int(nil), bc.s...)
+		ok, verr, pn := bc.ok, bc.verr, bc.pn
+		if pn == "" {
+			for changed := true; changed; {
+				changed = false
+				for i := range min {
+					t := append(append([]int(nil), min[:i]...), min[i+1:]...)
+					ok2, verr2, pn2, err := b.attempt(op, pick(t))
+					if err != nil {
+						return nil, err
+					}
+					w2 := b.want(pick(t), method)
+					if pn2 == "" && w2 == bc.want && ((w2 == MustReject && ok2) || (w2 == MustAccept && !ok2)) {
+						min, ok, verr = t, ok2, verr2
+						changed = true
+						break
+					}
+				}
+			}
+		}
+		explained = append(explained, expl{min, bc.want})
+		auth := pick(min)
+		var sig string
+		// a change that is only pending: does the node's answer follow the UNCONFIRMED rules?
+		ph := ""
+		if live != nil && pn == "" {
+			conf := b.w
+			b.w = live
+			wl := b.want(auth, method)
+			b.w = conf
+			if (ok && wl != MustReject) || (!ok && wl != MustAccept) {
+				ph = "|decided-by-the-unconfirmed-rule-change"
+			}
+		}
+		switch {
+		case pn != "":
+			sig = "tx|panic-in-VerifyTx|op=" + op
+		case bc.want == MustReject:
+			full := b.traceOf(auth, method)
+			off := map[string]bool{}
+			for i := range auth {
+				rest := append(append([]entry{}, auth[:i]...), auth[i+1:]...)
+				if b.traceOf(rest, method) == full {
+					off[auth[i].Cat] = true
+				}
+			}
+			var os []string
+			for c := range off {
+				os = append(os, c)
+			}
+			sort.Strings(os)
+			if len(os) > 0 {
+				// the defect part A sees in the evaluation, confirmed end to end
+				sig = "acl|accepts-unsatisfied-rule|counted=" + strings.Join(os, ",")
+				r.Count("B.end-to-end-confirmation-of."+sig, 1)
+			} else {
+				sig = "tx|accepted-without-satisfying-confirmed-rule|op=" + op + ph
+			}
+		default:
+			sig = "tx|refused-although-confirmed-rule-satisfied|op=" + op + ph
+		}
+		agg.add(bFinding{sig: sig, ord: ordBase + int64(bi),
+			detail: fmt.Sprintf("rule(A)=%s rule(B)=%s rule(C)=%s confirmed at the tip; %s in phase %q with auth_require %v (initiator: outsider key): VerifyTx=%v err=%v panic=%q; statement: %s",
+				b.w.Rules[b.A].Describe(symr), b.w.Rules[b.B].Describe(symr), b.w.Rules[b.C].Describe(symr), op, phase, b.symAuth(auth), ok, verr, pn, verdictName(bc.want)),
+			witness: map[string]interface{}{"operation": op, "phase": phase, "rule(A) confirmed": b.w.Rules[b.A].JSON(b.u), "rule(B) confirmed": b.w.Rules[b.B].JSON(b.u),
+				"rule(C) confirmed": b.w.Rules[b.C].JSON(b.u), "A": acctName(digitsA), "B": acctName(digitsB), "C": acctName(digitsC),
+				"initiator": sn.K(6).Address, "auth_require": uris(auth), "auth_require_symbolic": b.symAuth(auth), "VerifyTx": ok, "error": fmt.Sprint(verr),
+				"panic": pn, "oracle": verdictName(bc.want), "method_rule": method.Describe(symr)}})
+	}
+	return explained, nil
+}
+
+func (b *bworld) symAuth(auth []entry) []string {
+	var o []string
+	for _, e := range auth {
+		s := b.symPath(e.Path)
+		if e.Bad {
+			s += "(signature-and-public-key-of-" + b.sym[b.u.ID(e.Key.Address)] + ")"
+		}
+		o = append(o, s)
+	}
+	return o
+}
+
+// setAcl submits a correctly authorised SetAccountAcl for account acct (A or B) and leaves it in the pool.
+func (b *bworld) setAcl(acct int, rule *MRule) error {
+	all := b.fullAuth()
+	if acct == b.B {
+		all = []entry{b.ent(cDirect, 2, false, b.B, b.k[2]), b.ent(cDirect, 3, false, b.B, b.k[3])}
+	}
+	tx, err := b.contractTx([]*protos.InvokeRequest{aclReq("SetAccountAcl", map[string][]byte{"account_name": []byte(b.u.list[acct]),
+		"acl": []byte(rule.JSON(b.u))})}, sn.K(6).Address, uris(all))
+	if err != nil {
+		return err
+	}
+	x, err := b.sign(tx, sn.K(6), "", all)
+	if err != nil {
+		return err
+	}
+	return b.admit(x, "authorised SetAccountAcl")
+}
+
+type bJob struct {
+	ri int
+	op string
+}
+
+func partB(r *ev.Run) {
+	quick := r.Quick()
+	maxFull, maxPhase := 3, 3
+	if !quick {
+		maxFull, maxPhase = 13, 5
+	}
+	agg := &bAgg{findings: map[string]bFinding{}}
+	var jobs []bJob
+	ruleIdx := []int{0, 1, 2, 3, 4, 5, 9}
+	if !quick {
+		ruleIdx = []int{0, 1, 2, 3, 4, 5, 6, 7, 8, 9}
+	}
+	for _, ri := range ruleIdx {
+		for _, op := range acctOps {
+			jobs = append(jobs, bJob{ri, op})
+		}
+	}
+	jobs = append(jobs, bJob{1, opCallGuarded}, bJob{3, opCallGuarded}, bJob{0, opTakeover}, bJob{1, "initiator"}, bJob{10, "decimal-boundary"})
+	var next int64 = -1
+	var wg sync.WaitGroup
+	workers := runtime.NumCPU()
+	if workers > len(jobs) {
+		workers = len(jobs)
+	}
+	for wk := 0; wk < workers; wk++ {
+		wg.Add(1)
+		go func() {
+			defer wg.Done()
+			for {
+				ji := int(atomic.AddInt64(&next, 1))
+				if ji >= len(jobs) {
+					return
+				}
+				j := jobs[ji]
+				func() {
+					defer func() {
+						if p := recover(); p != nil {
+							if inc, ok := p.(sn.Inconclusive); ok {
+								agg.mu.Lock()
+								agg.incon = append(agg.incon, fmt.Sprintf("part B job %v: %s", j, inc.Why))
+								agg.mu.Unlock()
+								return
+							}
+							panic(p)
+						}
+					}()
+					if err := runJob(r, agg, j, int64(ji)<<32, maxFull, maxPhase); err != nil {
+						agg.mu.Lock()
+						agg.incon = append(agg.incon, fmt.Sprintf("part B job rule#%d %s: harness could not drive the node: %v", j.ri, j.op, err))
+						agg.mu.Unlock()
+					}
+				}()
+			}
+		}()
+	}
+	wg.Wait()
+	// the same disagreement on every guarded account operation is one defect (of the evaluation or of a
+	// step shared by all guards), not seven
+	groups := map[string][]string{}
+	for sg := range agg.findings {
+		for _, op := range acctOps {
+			if strings.Contains(sg, "|op="+op) {
+				k := strings.Replace(sg, "|op="+op, "|op=*", 1)
+				groups[k] = append(groups[k], sg)
+			}
+		}
+	}
+	for k, members := range groups {
+		if len(members) < len(acctOps) {
+			continue
+		}
+		sort.Strings(members)
+		best := agg.findings[members[0]]
+		for _, m := range members {
+			if agg.findings[m].ord < best.ord {
+				best = agg.findings[m]
+			}
+			delete(agg.findings, m)
+		}
+		best.sig = strings.Replace(k, "|op=*", "|op=every-guarded-account-operation", 1)
+		agg.findings[best.sig] = best
+	}
+	var sigs []string
+	for s := range agg.findings {
+		sigs = append(sigs, s)
+	}
+	sort.Strings(sigs)
+	for _, s := range sigs {
+		f := agg.findings[s]
+		report("end-to-end", f.sig, f.detail, f.witness)
+	}
+	sort.Strings(agg.incon)
+	for _, s := range agg.incon {
+		r.Inconclusive(s)
+	}
+	fmt.Fprintf(os.Stderr, "c11: part B: %d transactions verified, %d finding signatures, %d inconclusive jobs\n", r.Counter("B.transactions-verified"), len(sigs), len(agg.incon))
+}
+
+func runJob(r *ev.Run, agg *bAgg, j bJob, ord int64, maxFull, maxPhase int) error {
+	b, err := newWorld(j.ri)
+	if err != nil {
+		return fmt.Errorf("set-up: %v", err)
+	}
+	defer b.n.Drop()
+	r.Count("B.worlds", 1)
+	switch j.op {
+	case opCallGuarded:
+		return jobMethod(r, agg, b, j, ord, maxFull)
+	case opTakeover:
+		return jobTakeover(r, agg, b, j)
+	case "initiator":
+		return jobInitiator(r, agg, b, j)
+	case "decimal-boundary":
+		return jobDecimal(r, agg, b)
+	}
+	menu := b.menu()
+	full := subsets(len(menu), maxFull)
+	part := subsets(len(menu), maxPhase)
+	liveWith := func(acct int, rule *MRule) *World {
+		l := &World{N: b.u}
+		l.Rules = b.w.Rules
+		l.Rules[acct] = rule
+		return l
+	}
+	known, err := b.sweep(r, agg, j.ri, j.op, "base", menu, full, ord, nil, nil, nil)
+	if err != nil {
+		return err
+	}
+	// pending / confirmed change of the NESTED account's rule
+	if usesNested(b.w.Rules[b.A], b.B) {
+		nb := thr(1000, int64(b.k[2]), 1000)
+		if err := b.setAcl(b.B, nb); err != nil {
+			return err
+		}
+		if _, err := b.sweep(r, agg, j.ri, j.op, "nested-rule-change-pending", menu, part, ord+1<<20, nil, liveWith(b.B, nb), known); err != nil {
+			return err
+		}
+		if err := b.mine(); err != nil {
+			return err
+		}
+		b.w.Rules[b.B] = nb
+		if known, err = b.sweep(r, agg, j.ri, j.op, "nested-rule-change-confirmed", menu, part, ord+2<<20, nil, nil, nil); err != nil {
+			return err
+		}
+	}
+	// pending / confirmed change of the account's own rule
+	na := thr(1000, int64(b.k[3]), 1000)
+	if err := b.setAcl(b.A, na); err != nil {
+		return err
+	}
+	if _, err := b.sweep(r, agg, j.ri, j.op, "rule-change-pending", menu, part, ord+3<<20, nil, liveWith(b.A, na), known); err != nil {
+		return err
+	}
+	if err := b.mine(); err != nil {
+		return err
+	}
+	b.w.Rules[b.A] = na
+	_, err = b.sweep(r, agg, j.ri, j.op, "rule-change-confirmed", menu, part, ord+4<<20, nil, nil, nil)
+	return err
+}
+
+// jobMethod: a method rule set through SetMethodAcl guards $verif2.run.
+func jobMethod(r *ev.Run, agg *bAgg, b *bworld, j bJob, ord int64, maxFull int) error {
+	ini := sn.K(6)
+	all := b.fullAuth()
+	// $verif2 is owned by A
+	p := (&sn.ProgBuilder{}).Put(aclu.GetContract2AccountBucket(), []byte(guarded), []byte(acctName(digitsA)))
+	tx, err := b.contractTx([]*protos.InvokeRequest{sn.VerifReq(sn.VerifContract, p.String())}, ini.Address, uris(all))
+	if err != nil {
+		return err
+	}
+	x, err := b.sign(tx, ini, "", all)
+	if err != nil {
+		return err
+	}
+	if err := b.admit(x, "map guarded contract"); err != nil {
+		return err
+	}
+	if err := b.mine(); err != nil {
+		return err
+	}
+	m := thr(1000, int64(b.k[0]), 500, int64(b.k[1]), 500, int64(b.A), 1000)
+	if j.ri == 3 {
+		m = ksets([]int{b.k[0], b.k[1]}, []int{b.A})
+	}
+	menu := b.methodMenu()
+	subs := subsets(len(menu), maxFull+1)
+	// before the rule exists everybody may call: not part of the statement; count only
+	setTx, err := b.contractTx([]*protos.InvokeRequest{aclReq("SetMethodAcl", map[string][]byte{"contract_name": []byte(guarded), "method_name": []byte(sn.VerifMethod),
+		"acl": []byte(m.JSON(b.u))})}, ini.Address, uris(all))
+	if err != nil {
+		return err
+	}
+	x, err = b.sign(setTx, ini, "", all)
+	if err != nil {
+		return err
+	}
+	if err := b.admit(x, "SetMethodAcl"); err != nil {
+		return err
+	}
+	// pending: the method has NO confirmed rule yet -> outside the statement, only observed
+	free := 0
+	for _, s := range subsets(len(menu), 1) {
+		var auth []entry
+		for _, i := range s {
+			auth = append(auth, menu[i])
+		}
+		tx, err := b.body(opCallGuarded, uris(auth))
+		if err != nil {
+			return err
+		}
+		x, err := b.sign(tx, ini, "", auth)
+		if err != nil {
+			return err
+		}
+		if ok, _, _ := b.verify(x); ok {
+			free++
+		}
+	}
+	r.Count("B.observed.calls-accepted-while-first-method-rule-is-only-pending", free)
+	if err := b.mine(); err != nil {
+		return err
+	}
+	_, err = b.sweep(r, agg, j.ri, opCallGuarded, "base", menu, subs, ord, m, nil, nil)
+	return err
+}
+
+// jobTakeover: observation only (the statement does not speak about the mapping bucket):
+// who may re-point an existing contract at another account?
+func jobTakeover(r *ev.Run, agg *bAgg, b *bworld, j bJob) error {
+	ini := sn.K(6)
+	try := func(auth []entry) (bool, error) {
+		tx, err := b.body(opTakeover, uris(auth))
+		if err != nil {
+			return false, err
+		}
+		x, err := b.sign(tx, ini, "", auth)
+		if err != nil {
+			return false, err
+		}
+		ok, _, pn := b.verify(x)
+		if pn != "" {
+			return false, fmt.Errorf("panic: %s", pn)
+		}
+		return ok, nil
+	}
+	onlyNew, err := try([]entry{b.ent(cDirect, 0, false, b.C, b.k[0])}) // satisfies C (new owner), not A... A rule#0 is k1 too but under A/
+	if err != nil {
+		return err
+	}
+	onlyOld, err := try([]entry{b.ent(cDirect, 0, false, b.A, b.k[0])})
+	if err != nil {
+		return err
+	}
+	nobody, err := try(nil)
+	if err != nil {
+		return err
+	}
+	r.Count("B.observed.remap-existing-contract.accepted-with-NEW-owner-signers-only", b2i(onlyNew))
+	r.Count("B.observed.remap-existing-contract.accepted-with-OLD-owner-signers-only", b2i(onlyOld))
+	r.Count("B.observed.remap-existing-contract.accepted-without-signers", b2i(nobody))
+	r.Count("B.observed.remap-existing-contract.probes", 3)
+	// mapping value that is no account name at all
+	p := (&sn.ProgBuilder{}).Put(aclu.GetContract2AccountBucket(), []byte(contOwn), []byte(sn.K(5).Address))
+	tx, err := b.contractTx([]*protos.InvokeRequest{sn.VerifReq(sn.VerifContract, p.String())}, ini.Address, nil)
+	if err != nil {
+		return err
+	}
+	x, err := b.sign(tx, ini, "", nil)
+	if err != nil {
+		return err
+	}
+	ok, _, _ := b.verify(x)
+	r.Count("B.observed.remap-existing-contract-to-a-plain-address.accepted-without-signers", b2i(ok))
+	return nil
+}
+
+func b2i(b bool) int {
+	if b {
+		return 1
+	}
+	return 0
+}
+
+// jobInitiator: the initiator's own signature. Only the sandwich is enforced.
+func jobInitiator(r *ev.Run, agg *bAgg, b *bworld, j bJob) error {
+	// rule#1: k1:0.5 + k2:0.5 >= 1
+	type probe struct {
+		name     string
+		init     *sn.Key
+		initAcct string
+		auth     []entry
+	}
+	A := acctName(digitsA)
+	probes := []probe{
+		{"initiator k1 (member) bare, auth [A/k2]", sn.K(0), "", []entry{b.ent(cDirect, 1, false, b.A, b.k[1])}},
+		{"initiator k1 (member) bare, auth [A/k1,A/k2]", sn.K(0), "", []entry{b.ent(cDirect, 0, false, b.A, b.k[0]), b.ent(cDirect, 1, false, b.A, b.k[1])}},
+		{"initiator k1 (member) bare, auth []", sn.K(0), "", nil},
+		{"initiator = account A signed by k1, auth [A/k2]", sn.K(0), A, []entry{b.ent(cDirect, 1, false, b.A, b.k[1])}},
+		{"initiator = account A signed by k1, auth []", sn.K(0), A, nil},
+		{"initiator = account A signed by k7 (outsider), auth [A/k1,A/k2]", sn.K(6), A, []entry{b.ent(cDirect, 0, false, b.A, b.k[0]), b.ent(cDirect, 1, false, b.A, b.k[1])}},
+	}
+	for _, op := range []string{opSetAccountAcl, opSpend} {
+		for pi, p := range probes {
+			tx, err := b.body(op, uris(p.auth))
+			if err != nil {
+				return err
+			}
+			x, err := b.sign(tx, p.init, p.initAcct, p.auth)
+			if err != nil {
+				return err
+			}
+			ok, verr, pn := b.verify(x)
+			var paths [][]int8
+			for _, e := range p.auth {
+				paths = append(paths, e.Path)
+			}
+			lo := b.w.OracleAccount(b.A, paths)
+			// liberal: the initiator's key counts as if it had signed for A
+			hi := b.w.OracleAccount(b.A, append(append([][]int8{}, paths...), []int8{int8(b.A), int8(b.u.ID(p.init.Address))}))
+			r.Case(fmt.Sprintf("B|initiator|%s|%d", op, pi), true)
+			r.Count("B.initiator-probes", 1)
+			r.Count("B.transactions-verified", 1)
+			switch {
+			case pn != "":
+				agg.add(bFinding{sig: "tx|panic-in-VerifyTx", detail: p.name + ": " + pn})
+			case ok && hi == MustReject:
+				agg.add(bFinding{sig: "tx|accepted-without-satisfying-confirmed-rule|op=" + op + "|initiator-probe",
+					detail:  fmt.Sprintf("%s: %s accepted although rule %s is not satisfied even counting the initiator", p.name, op, b.w.Rules[b.A].Describe(func(i int) string { return b.sym[i] })),
+					witness: map[string]interface{}{"probe": p.name, "op": op}})
+			case !ok && lo == MustAccept && p.initAcct == "":
+				agg.add(bFinding{sig: "tx|refused-although-confirmed-rule-satisfied|op=" + op + "|initiator-probe",
+					detail: fmt.Sprintf("%s: %s refused (%v) although auth_require alone satisfies the rule", p.name, op, verr), witness: map[string]interface{}{"probe": p.name, "op": op}})
+			case lo != hi:
+				r.Count("B.initiator-own-signature-decides(unspecified)."+map[bool]string{true: "node-counts-it", false: "node-ignores-it"}[ok], 1)
+			}
+		}
+	}
+	return nil
+}
+
+// jobDecimal: the decimal-boundary behaviour of threshold rules, through a rule written as JSON on chain.
+func jobDecimal(r *ev.Run, agg *bAgg, b *bworld) error {
+	symr := func(i int) string { return b.sym[i] }
+	rule := b.w.Rules[b.A]
+	e := []entry{b.ent(cDirect, 0, false, b.A, b.k[0]), b.ent(cDirect, 1, false, b.A, b.k[1]), b.ent(cDirect, 2, false, b.A, b.k[2]), b.ent(cDirect, 3, false, b.A, b.k[3])}
+	for _, set := range [][]int{{0, 2, 3}, {0, 1}, {1, 2}, {2, 3}, {0, 3}} {
+		var acc, rej [][]string
+		var sum int64
+		for _, i := range set {
+			sum += rule.W[b.k[i]]
+		}
+		var ferr error
+		perm(set, func(p []int) {
+			var auth []entry
+			for _, i := range p {
+				auth = append(auth, e[i])
+			}
+			ok, _, pn, err := b.attempt(opSetAccountAcl, auth)
+			if err != nil || pn != "" {
+				ferr = fmt.Errorf("decimal probe: %v %s", err, pn)
+				return
+			}
+			r.Count("B.transactions-verified", 1)
+			r.Count("B.decimal-boundary.transactions", 1)
+			if ok {
+				acc = append(acc, b.symAuth(auth))
+			} else {
+				rej = append(rej, b.symAuth(auth))
+			}
+		})
+		if ferr != nil {
+			return ferr
+		}
+		r.Case(fmt.Sprintf("B|decimal-boundary|%v", set), true)
+		w := map[string]interface{}{"rule(A) confirmed": rule.JSON(b.u), "A": acctName(digitsA), "operation": opSetAccountAcl, "accepted_auth_require_orders": acc, "refused_auth_require_orders": rej}
+		switch {
+		case len(acc) > 0 && len(rej) > 0:
+			agg.add(bFinding{sig: "acl|threshold|answer-depends-on-signer-order", ord: 1,
+				detail: fmt.Sprintf("rule(A)=%s confirmed; SetAccountAcl with auth_require %v: VerifyTx accepts, with the same entries in order %v it refuses", rule.Describe(symr), acc[0], rej[0]), witness: w})
+		case sum >= rule.Accept && len(acc) == 0:
+			agg.add(bFinding{sig: "acl|threshold|decimal-weights-adding-up-to-threshold-rejected", ord: 1,
+				detail: fmt.Sprintf("rule(A)=%s confirmed; SetAccountAcl with auth_require %v (weights add up to the threshold as written) is refused in every order", rule.Describe(symr), rej[0]), witness: w})
+		case sum < rule.Accept && len(rej) == 0:
+			agg.add(bFinding{sig: "tx|accepted-without-satisfying-confirmed-rule|op=" + opSetAccountAcl + "|decimal-boundary", ord: 1,
+				detail: fmt.Sprintf("rule(A)=%s confirmed; auth_require %v accepted below the threshold", rule.Describe(symr), acc[0]), witness: w})
+		}
+	}
+	return nil
+}
+
+func partBFloors(r *ev.Run) {
+	r.Floor("B.decimal-boundary.transactions", 10)
+	r.Floor("B.transactions-verified", 5000)
+	r.Floor("B.oracle.must-accept", 500)
+	r.Floor("B.oracle.must-reject", 2000)
+	for _, op := range append(append([]string{}, acctOps...), opCallGuarded) {
+		r.Floor("B.op."+op, 100)
+	}
+	for _, ph := range []string{"rule-change-pending", "rule-change-confirmed", "nested-rule-change-pending", "nested-rule-change-confirmed"} {
+		r.Floor("B.phase."+ph+".must-accept", 20)
+		r.Floor("B.phase."+ph+".must-reject", 20)
+	}
+	for _, c := range []string{cDirect, cNested, cOther, cBare, cNameBefore, cLookalike, cBadSig, cRepeat} {
+		r.Floor("B.cases-with."+c, 100)
+	}
+	r.Floor("B.node.accepted", 500)
+	r.Floor("B.node.refused", 2000)
+	r.Floor("B.observed.remap-existing-contract.probes", 3)
+	r.Floor("B.initiator-probes", 10)
+}
